@@ -147,7 +147,13 @@ def api_level(ctx):
         flags = raw[(raw[0] & 15) * 4 + 13] if v == "4" else raw[40 + 13]
         sec = "response" if flags & 0x10 else "request"
         db = f"[tcp:{sec}]\nlabel = s:unix:X:\nsig = {sig}\n"
-        ops.append("histq\tL:" + hx(db) + f"\tT:{v}:{raw.hex()}:0:{r.choice([35, 35, 35, 0, 4, 255])}")
+        tstep = f"T:{v}:{raw.hex()}:0:{r.choice([35, 35, 35, 0, 4, 255])}"
+        if r.random() < 0.15:
+            # the record's signature has been used by an impersonation by label (with extra hops) before: the verdict
+            # is still that of the signature TEXT in the file
+            ops.append("histq\tL:" + hx(db) + "\t" + tstep + f"\tI:{v}:{raw.hex()}:label:{hx('s:unix:X:')}:{r.choice([1, 3, 9])}" + "\t" + tstep)
+        else:
+            ops.append("histq\tL:" + hx(db) + "\t" + tstep)
     ctx.correspond(ops, nontrivial=lambda l, a: " ; " in a and not a.split(" ; ")[1].startswith(("none", "ERR")), label="api-text-x-wire",
                    tagger=lambda l, a: (a.split(" ; ")[1].split(" ")[1] if " ; " in a and len(a.split(" ; ")[1].split(" ")) == 3 else a.split(" ; ")[-1][:10]))
 
